@@ -295,3 +295,829 @@ Proof.
   - intros H. specialize (IH H). unfold refs_of in IH. lia.
 Qed.
 End AssocLemmas.
+
+(* ============================================================ C. the chunk table *)
+Section TableProofs.
+Variable hash : list N -> N.
+Variable rdec rinc : N -> N.
+Hypothesis Hdec : forall r, rdec r = r - 1.
+Hypothesis Hinc : forall r, rinc r = r + 1.
+
+Notation store1 := (store_chunk_tbl hash rinc).
+Notation storeN := (store_chunks_tbl hash rinc).
+Notation dec1 := (dec_ref rdec).
+
+Lemma store_chunks_get now : forall ps cks k,
+  aget (storeN now cks ps) k =
+  match aget cks k with
+  | Some c => Some (Ch (cdata c) (crefs c + count k (map hash ps)) (ccreated c))
+  | None => match find (fun p => N.eqb (hash p) k) ps with
+            | Some p => Some (Ch p (count k (map hash ps)) now)
+            | None => None
+            end
+  end.
+Proof.
+  induction ps as [|p r IH]; intros cks k; cbn [store_chunks_tbl fold_left map count find].
+  - destruct (aget cks k) as [c|]; [|reflexivity]. destruct c; cbn. rewrite N.add_0_r. reflexivity.
+  - fold (storeN now (store1 now cks p) r). rewrite IH. unfold store_chunk_tbl.
+    destruct (aget cks (hash p)) as [c0|] eqn:E0; rewrite aget_aset.
+    + destruct (N.eqb_spec (hash p) k) as [<-|Hne].
+      * rewrite E0. cbn [cdata crefs ccreated]. rewrite Hinc. f_equal. f_equal. lia.
+      * destruct (aget cks k) as [c|]; [f_equal; f_equal; lia|]. reflexivity.
+    + destruct (N.eqb_spec (hash p) k) as [<-|Hne].
+      * rewrite E0. cbn [cdata crefs ccreated]. reflexivity.
+      * destruct (aget cks k) as [c|]; [f_equal; f_equal; lia|].
+        destruct (find (fun p0 => N.eqb (hash p0) k) r); [f_equal; f_equal; lia|reflexivity].
+Qed.
+
+Lemma store_chunks_nodup now : forall ps cks, NoDup (keys cks) -> NoDup (keys (storeN now cks ps)).
+Proof.
+  induction ps as [|p r IH]; intros cks H; cbn [store_chunks_tbl fold_left]; [exact H|].
+  apply IH. unfold store_chunk_tbl. destruct (aget cks (hash p)); apply nodup_aset; exact H.
+Qed.
+
+Lemma dec_fold_get : forall ks cks k,
+  aget (fold_left dec1 ks cks) k =
+  match aget cks k with
+  | Some c => Some (Ch (cdata c) (crefs c - count k ks) (ccreated c))
+  | None => None
+  end.
+Proof.
+  induction ks as [|x r IH]; intros cks k; cbn [fold_left count].
+  - destruct (aget cks k) as [c|]; [|reflexivity]. destruct c; cbn. rewrite N.sub_0_r. reflexivity.
+  - rewrite IH. unfold dec_ref. destruct (aget cks x) as [c0|] eqn:E0.
+    + rewrite aget_aset. destruct (N.eqb_spec x k) as [<-|Hne].
+      * rewrite E0. cbn [cdata crefs ccreated]. rewrite Hdec. f_equal. f_equal. lia.
+      * destruct (aget cks k); [f_equal; f_equal; lia|reflexivity].
+    + destruct (N.eqb_spec x k) as [<-|Hne].
+      * rewrite E0. reflexivity.
+      * destruct (aget cks k); [f_equal; f_equal; lia|reflexivity].
+Qed.
+
+Lemma dec_fold_nodup : forall ks cks, NoDup (keys cks) -> NoDup (keys (fold_left dec1 ks cks)).
+Proof.
+  induction ks as [|x r IH]; intros cks H; cbn [fold_left]; [exact H|].
+  apply IH. unfold dec_ref. destruct (aget cks x); [apply nodup_aset|]; exact H.
+Qed.
+
+(* repair's rewrite of the table *)
+Lemma repair_get refd : forall cks k, NoDup (keys cks) ->
+  aget (flat_map (fun p : N * chunk => let e := count (fst p) refd in
+                    if N.eqb e 0 then [] else [(fst p, Ch (cdata (snd p)) e (ccreated (snd p)))]) cks) k =
+  match aget cks k with
+  | Some c => if N.eqb (count k refd) 0 then None else Some (Ch (cdata c) (count k refd) (ccreated c))
+  | None => None
+  end.
+Proof.
+  induction cks as [|[k0 c0] r IH]; intros k Hnd; cbn [flat_map aget fst snd]; [reflexivity|].
+  inversion Hnd as [|? ? Hni Hnd']; subst.
+  destruct (N.eqb_spec k0 k) as [->|Hne].
+  - destruct (N.eqb (count k refd) 0) eqn:E; cbn [app aget].
+    + rewrite IH by assumption. destruct (aget r k) eqn:Er; [|reflexivity].
+      exfalso. apply Hni. eapply aget_some_key. exact Er.
+    + rewrite N.eqb_refl. reflexivity.
+  - destruct (N.eqb (count k0 refd) 0); cbn [app aget]; [apply IH; assumption|].
+    destruct (N.eqb_spec k0 k); [congruence|apply IH; assumption].
+Qed.
+
+Lemma repair_nodup refd : forall cks, NoDup (keys cks) ->
+  NoDup (keys (flat_map (fun p : N * chunk => let e := count (fst p) refd in
+                    if N.eqb e 0 then [] else [(fst p, Ch (cdata (snd p)) e (ccreated (snd p)))]) cks)).
+Proof.
+  induction cks as [|[k0 c0] r IH]; intros Hnd; cbn [flat_map fst snd]; [constructor|].
+  inversion Hnd as [|? ? Hni Hnd']; subst.
+  destruct (N.eqb (count k0 refd) 0); cbn [app]; [auto|].
+  cbn [keys map fst]. constructor; [|apply IH; assumption].
+  intros Hin. apply Hni. unfold keys in *. rewrite in_map_iff in *. destruct Hin as [[k' c'] [E Hin]].
+  cbn in E. subst k'. apply in_flat_map in Hin. destruct Hin as [[k1 c1] [Hin1 H1]]. cbn in H1.
+  destruct (N.eqb (count k1 refd) 0); [contradiction|]. destruct H1 as [H1|[]]. injection H1 as -> _.
+  exists (k0, c1). split; [reflexivity|exact Hin1].
+Qed.
+End TableProofs.
+
+(* ============================================================ D. the reference-count invariant *)
+Section InvProofs.
+Variable hash : list N -> N.
+Variable collectable : N -> N -> N -> bool.
+Variable mincr : N -> N -> N.
+Variable rdec rinc : N -> N.
+Variable fgc_w rep_w : bool.
+Variable cs : nat.
+Variable min_age : N.
+Hypothesis Hcs : (0 < cs)%nat.
+Hypothesis Hcoll : forall r c m, collectable r c m = true -> r = 0.
+Hypothesis Hdec : forall r, rdec r = r - 1.
+Hypothesis Hinc : forall r, rinc r = r + 1.
+Hypothesis Hfgc : fgc_w = true.
+Hypothesis Hrep : rep_w = true.
+
+Notation stepm := (step hash collectable mincr rdec rinc fgc_w rep_w cs min_age).
+Notation runm := (run hash collectable mincr rdec rinc fgc_w rep_w cs min_age).
+Notation storeN := (store_chunks_tbl hash rinc).
+
+(* occurrences of a chunk key in the artifact records and in the unfinished writers *)
+Definition occ2 (ar : list (N * art)) (wr : list (N * writer)) (k : N) : N :=
+  count k (refs_of achunks ar) + count k (refs_of wchunks wr).
+Definition occ (s : st) (k : N) : N := occ2 (arts s) (writers s) k.
+
+Record Inv (s : st) : Prop := {
+  i_nd_c : NoDup (keys (chunks s));
+  i_nd_a : NoDup (keys (arts s));
+  i_nd_w : NoDup (keys (writers s));
+  i_fresh_a : forall id, next_id s <= id -> aget (arts s) id = None;
+  i_fresh_w : forall id, next_id s <= id -> aget (writers s) id = None;
+  i_disj : forall id w, aget (writers s) id = Some w -> aget (arts s) id = None;
+  i_hash : forall k c, aget (chunks s) k = Some c -> hash (cdata c) = k /\ In (cdata c) (seen s);
+  i_refs : forall k c, aget (chunks s) k = Some c -> crefs c = occ s k;
+  i_live : forall k, 0 < occ s k -> aget (chunks s) k <> None
+}.
+
+Lemma Inv_init : Inv init.
+Proof.
+  constructor; cbn; try constructor; try discriminate; try reflexivity.
+Qed.
+
+Lemma find_hash_some ps k p : find (fun p0 : list N => N.eqb (hash p0) k) ps = Some p -> hash p = k /\ In p ps.
+Proof. intros H. apply find_some in H. destruct H as [Hin He]. apply N.eqb_eq in He. tauto. Qed.
+
+Lemma find_hash_none ps k : find (fun p0 : list N => N.eqb (hash p0) k) ps = None -> count k (map hash ps) = 0.
+Proof.
+  induction ps as [|p r IH]; cbn [find map count]; [reflexivity|].
+  destruct (N.eqb (hash p) k); [discriminate|]. intros H. rewrite IH by assumption. reflexivity.
+Qed.
+
+(* storing pieces on behalf of a new holder of references *)
+Lemma inv_commit s ps ar' wr' nx :
+  Inv s ->
+  NoDup (keys ar') -> NoDup (keys wr') ->
+  (forall id, nx <= id -> aget ar' id = None) -> (forall id, nx <= id -> aget wr' id = None) ->
+  (forall id w, aget wr' id = Some w -> aget ar' id = None) ->
+  (forall k, occ2 ar' wr' k = occ s k + count k (map hash ps)) ->
+  Inv (St (storeN (clock s) (chunks s) ps) ar' wr' nx (clock s) (rev ps ++ seen s)).
+Proof.
+  intros I Ha Hw Hfa Hfw Hdj Hocc. destruct I.
+  constructor; cbn [chunks arts writers next_id clock seen]; try assumption.
+  - eapply store_chunks_nodup; eassumption.
+  - intros k c. rewrite (store_chunks_get hash rdec rinc Hdec Hinc). destruct (aget (chunks s) k) as [c0|] eqn:E.
+    + intros [= <-]. cbn [cdata]. destruct (i_hash0 k c0 E) as [H1 H2]. split; [exact H1|].
+      apply in_or_app. right. exact H2.
+    + destruct (find _ ps) as [p|] eqn:Ef; [|discriminate]. intros [= <-]. cbn [cdata].
+      apply find_hash_some in Ef. destruct Ef as [H1 H2]. split; [exact H1|].
+      apply in_or_app. left. apply in_rev in H2. rewrite <- in_rev. apply in_rev. exact H2.
+  - intros k c. rewrite (store_chunks_get hash rdec rinc Hdec Hinc). unfold occ. cbn [arts writers]. rewrite Hocc.
+    destruct (aget (chunks s) k) as [c0|] eqn:E.
+    + intros [= <-]. cbn [crefs]. rewrite (i_refs0 k c0 E). reflexivity.
+    + destruct (find _ ps) as [p|] eqn:Ef; [|discriminate]. intros [= <-]. cbn [crefs].
+      assert (occ s k = 0).
+      { destruct (N.eq_dec (occ s k) 0) as [|Hn]; [assumption|]. exfalso. apply (i_live0 k); [lia|exact E]. }
+      lia.
+  - intros k. unfold occ. cbn [arts writers]. rewrite Hocc. rewrite (store_chunks_get hash rdec rinc Hdec Hinc). intros Hpos.
+    destruct (aget (chunks s) k) as [c0|] eqn:E; [discriminate|].
+    destruct (find _ ps) as [p|] eqn:Ef; [discriminate|]. apply find_hash_none in Ef.
+    assert (occ s k = 0).
+    { destruct (N.eq_dec (occ s k) 0) as [|Hn]; [assumption|]. exfalso. apply (i_live0 k); [lia|exact E]. }
+    lia.
+Qed.
+
+(* the chunk table shrinks, but only by chunks nobody references *)
+Lemma inv_shrink s cks' :
+  Inv s -> NoDup (keys cks') ->
+  (forall k, aget cks' k = aget (chunks s) k \/ (aget cks' k = None /\ occ s k = 0)) ->
+  Inv (St cks' (arts s) (writers s) (next_id s) (clock s) (seen s)).
+Proof.
+  intros I Hnd Hget. destruct I.
+  constructor; cbn [chunks arts writers next_id clock seen]; try assumption.
+  - intros k c E. destruct (Hget k) as [H|[H _]]; rewrite H in E; [auto|discriminate].
+  - intros k c E. unfold occ. cbn [arts writers]. destruct (Hget k) as [H|[H _]]; rewrite H in E; [|discriminate].
+    apply i_refs0. exact E.
+  - intros k Hpos. unfold occ in Hpos. cbn [arts writers] in Hpos. destruct (Hget k) as [H|[_ H]].
+    + rewrite H. apply i_live0. exact Hpos.
+    + unfold occ in H. lia.
+Qed.
+
+Lemma occ_refs_app s k : count k (art_refs s ++ wr_refs s) = occ s k.
+Proof. rewrite count_app. reflexivity. Qed.
+
+Lemma inv_gc s ks : Inv s ->
+  Inv (St (fst (gc_run collectable mincr min_age s ks)) (arts s) (writers s) (next_id s) (clock s) (seen s)).
+Proof.
+  intros I. pose proof I as I'. destruct I'. unfold gc_run. cbn [fst].
+  apply inv_shrink; [exact I|apply nodup_filter; assumption|].
+  intros k. rewrite aget_filter by assumption. destruct (aget (chunks s) k) as [c|] eqn:E; [|left; reflexivity].
+  destruct (gc_hit collectable mincr min_age (clock s) ks (k, c)) eqn:Eh; cbn [negb]; [right|left; reflexivity].
+  split; [reflexivity|]. unfold gc_hit in Eh. apply andb_true_iff in Eh. destruct Eh as [_ Eh].
+  cbn [fst snd] in Eh. apply Hcoll in Eh. rewrite <- (i_refs0 k c E). exact Eh.
+Qed.
+
+Lemma inv_full_gc s : Inv s ->
+  Inv (St (fst (full_gc_run fgc_w s)) (arts s) (writers s) (next_id s) (clock s) (seen s)).
+Proof.
+  intros I. pose proof I as I'. destruct I'. unfold full_gc_run. cbn [fst].
+  apply inv_shrink; [exact I|apply nodup_filter; assumption|].
+  intros k. rewrite aget_filter by assumption. destruct (aget (chunks s) k) as [c|] eqn:E; [|left; reflexivity].
+  cbn [fst]. destruct (mem k (fgc_refs fgc_w s)) eqn:Em; [left; reflexivity|right].
+  split; [reflexivity|]. apply mem_false_count in Em. unfold fgc_refs in Em. rewrite Hfgc in Em.
+  rewrite occ_refs_app in Em. exact Em.
+Qed.
+
+Lemma inv_repair s : Inv s ->
+  Inv (St (fst (repair_run rep_w s)) (arts s) (writers s) (next_id s) (clock s) (seen s)).
+Proof.
+  intros I. destruct I. unfold repair_run. cbn [fst].
+  assert (Hc : forall k, count k (rep_refs rep_w s) = occ s k).
+  { intros k. unfold rep_refs. rewrite Hrep. apply occ_refs_app. }
+  constructor; cbn [chunks arts writers next_id clock seen]; try assumption.
+  - apply repair_nodup. assumption.
+  - intros k c. rewrite repair_get by assumption. destruct (aget (chunks s) k) as [c0|] eqn:E; [|discriminate].
+    destruct (N.eqb (count k (rep_refs rep_w s)) 0); [discriminate|]. intros [= <-]. cbn [cdata]. auto.
+  - intros k c. rewrite repair_get by assumption. destruct (aget (chunks s) k) as [c0|] eqn:E; [|discriminate].
+    destruct (N.eqb (count k (rep_refs rep_w s)) 0); [discriminate|]. intros [= <-]. cbn [crefs].
+    unfold occ at 1. cbn [arts writers]. apply Hc.
+  - intros k Hpos. unfold occ in Hpos. cbn [arts writers] in Hpos. rewrite repair_get by assumption.
+    destruct (aget (chunks s) k) as [c0|] eqn:E.
+    + rewrite Hc. destruct (N.eqb_spec (occ s k) 0) as [H0|]; [unfold occ in H0; lia|discriminate].
+    + exfalso. apply (i_live0 k); [exact Hpos|exact E].
+Qed.
+
+Lemma inv_delete s id a : Inv s -> aget (arts s) id = Some a ->
+  Inv (St (fold_left (dec_ref rdec) (achunks a) (chunks s)) (adel (arts s) id) (writers s) (next_id s) (clock s) (seen s)).
+Proof.
+  intros I Ha. destruct I.
+  assert (Hocc : forall k, occ2 (adel (arts s) id) (writers s) k + count k (achunks a) = occ s k).
+  { intros k. unfold occ, occ2. pose proof (cnt_adel achunks (arts s) id a k i_nd_a0 Ha). lia. }
+  constructor; cbn [chunks arts writers next_id clock seen]; try assumption.
+  - eapply dec_fold_nodup; eassumption.
+  - apply nodup_adel. assumption.
+  - intros id' Hid. rewrite aget_adel. destruct (N.eqb id id'); [reflexivity|auto].
+  - intros id' w Hw. rewrite aget_adel. destruct (N.eqb id id'); [reflexivity|eauto].
+  - intros k c. rewrite (dec_fold_get hash rdec rinc Hdec Hinc). destruct (aget (chunks s) k) as [c0|] eqn:E; [|discriminate].
+    intros [= <-]. cbn [cdata]. eauto.
+  - intros k c. rewrite (dec_fold_get hash rdec rinc Hdec Hinc). destruct (aget (chunks s) k) as [c0|] eqn:E; [|discriminate].
+    intros [= <-]. cbn [crefs]. rewrite (i_refs0 k c0 E). unfold occ at 2. cbn [arts writers].
+    specialize (Hocc k). lia.
+  - intros k Hpos. unfold occ in Hpos. cbn [arts writers] in Hpos.
+    rewrite (dec_fold_get hash rdec rinc Hdec Hinc). destruct (aget (chunks s) k) as [c0|] eqn:E; [discriminate|].
+    exfalso. apply (i_live0 k); [|exact E]. specialize (Hocc k). lia.
+Qed.
+
+Lemma storeN_nil now cks : storeN now cks [] = cks.
+Proof. reflexivity. Qed.
+Lemma storeN_app now cks p1 p2 : storeN now cks (p1 ++ p2) = storeN now (storeN now cks p1) p2.
+Proof. unfold store_chunks_tbl. apply fold_left_app. Qed.
+
+Lemma inv_open s : Inv s ->
+  Inv (St (chunks s) (arts s) (aset (writers s) (next_id s) new_writer) (next_id s + 1) (clock s) (seen s)).
+Proof.
+  intros I. pose proof I as I'. destruct I'.
+  assert (Hn : aget (writers s) (next_id s) = None) by (apply i_fresh_w0; lia).
+  change (chunks s) with (storeN (clock s) (chunks s) []).
+  change (seen s) with (rev (@nil (list N)) ++ seen s).
+  apply inv_commit; try assumption.
+  - apply nodup_aset. assumption.
+  - intros id Hid. apply i_fresh_a0. lia.
+  - intros id Hid. rewrite aget_aset. destruct (N.eqb_spec (next_id s) id); [lia|]. apply i_fresh_w0. lia.
+  - intros id w. rewrite aget_aset. destruct (N.eqb_spec (next_id s) id) as [<-|].
+    + intros _. apply i_fresh_a0. lia.
+    + apply i_disj0.
+  - intros k. unfold occ, occ2. rewrite cnt_aset_new by assumption. cbn. lia.
+Qed.
+
+Lemma inv_write s w wr ps r al : Inv s -> aget (writers s) w = Some wr ->
+  Inv (St (storeN (clock s) (chunks s) ps) (arts s)
+          (aset (writers s) w (Wr r (wchunks wr ++ map hash ps) al)) (next_id s) (clock s) (rev ps ++ seen s)).
+Proof.
+  intros I Hw. pose proof I as I'. destruct I'.
+  apply inv_commit; try assumption.
+  - apply nodup_aset. assumption.
+  - intros id Hid. rewrite aget_aset. destruct (N.eqb_spec w id) as [<-|]; [|auto].
+    rewrite i_fresh_w0 in Hw by assumption. discriminate.
+  - intros id w'. rewrite aget_aset. destruct (N.eqb_spec w id) as [<-|]; [|apply i_disj0].
+    intros _. eapply i_disj0. exact Hw.
+  - intros k. unfold occ, occ2.
+    pose proof (cnt_aset_upd wchunks (writers s) w wr (Wr r (wchunks wr ++ map hash ps) al) k i_nd_w0 Hw) as H.
+    cbn [wchunks] in H. rewrite count_app in H. lia.
+Qed.
+
+Lemma inv_finish s w wr ps sz sm : Inv s -> aget (writers s) w = Some wr ->
+  Inv (St (storeN (clock s) (chunks s) ps) (aset (arts s) w (Art (wchunks wr ++ map hash ps) sz sm))
+          (adel (writers s) w) (next_id s) (clock s) (rev ps ++ seen s)).
+Proof.
+  intros I Hw. pose proof I as I'. destruct I'.
+  assert (Ha : aget (arts s) w = None) by (eapply i_disj0; exact Hw).
+  assert (Hlt : w < next_id s).
+  { destruct (N.lt_ge_cases w (next_id s)) as [|Hge]; [assumption|]. rewrite i_fresh_w0 in Hw by assumption. discriminate. }
+  apply inv_commit; try assumption.
+  - apply nodup_aset. assumption.
+  - apply nodup_adel. assumption.
+  - intros id Hid. rewrite aget_aset. destruct (N.eqb_spec w id); [lia|auto].
+  - intros id Hid. rewrite aget_adel. destruct (N.eqb w id); [reflexivity|auto].
+  - intros id w'. rewrite aget_adel, aget_aset. destruct (N.eqb_spec w id); [discriminate|apply i_disj0].
+  - intros k. unfold occ, occ2. rewrite cnt_aset_new by assumption. cbn [achunks]. rewrite count_app.
+    pose proof (cnt_adel wchunks (writers s) w wr k i_nd_w0 Hw). lia.
+Qed.
+
+Lemma inv_put s ps sz sm : Inv s ->
+  Inv (St (storeN (clock s) (chunks s) ps) (aset (arts s) (next_id s) (Art (map hash ps) sz sm))
+          (writers s) (next_id s + 1) (clock s) (rev ps ++ seen s)).
+Proof.
+  intros I. pose proof I as I'. destruct I'.
+  assert (Ha : aget (arts s) (next_id s) = None) by (apply i_fresh_a0; lia).
+  apply inv_commit; try assumption.
+  - apply nodup_aset. assumption.
+  - intros id Hid. rewrite aget_aset. destruct (N.eqb_spec (next_id s) id); [lia|]. apply i_fresh_a0. lia.
+  - intros id Hid. apply i_fresh_w0. lia.
+  - intros id w' Hw'. rewrite aget_aset. destruct (N.eqb_spec (next_id s) id) as [<-|]; [|eapply i_disj0; exact Hw'].
+    rewrite i_fresh_w0 in Hw' by lia. discriminate.
+  - intros k. unfold occ, occ2. rewrite cnt_aset_new by assumption. cbn [achunks]. lia.
+Qed.
+
+(* the pieces a one-shot put stores are exactly the chunker's split of the data *)
+Lemma put_pieces (d : list N) :
+  let '(ps1, r) := drain (length d) cs d in
+  ps1 ++ match r with [] => [] | b => [b] end = split cs d.
+Proof.
+  pose proof (drain_spec cs (length d) d Hcs (le_n _)) as H.
+  destruct (drain (length d) cs d) as [ps1 r]. destruct H as (H1 & H2 & H3).
+  rewrite <- H1. rewrite split_pieces by assumption. reflexivity.
+Qed.
+
+(* state reached by put, in single-commit form *)
+Lemma put_state s x d : aget (writers s) (next_id s) = None ->
+  fst (stepm s (OPut (x :: d))) =
+  St (storeN (clock s) (chunks s) (split cs (x :: d)))
+     (aset (arts s) (next_id s) (Art (map hash (split cs (x :: d))) (N.of_nat (length (x :: d))) (hash (x :: d))))
+     (writers s) (next_id s + 1) (clock s) (rev (split cs (x :: d)) ++ seen s).
+Proof.
+  intros Hfresh. cbn [step]. unfold w_write. cbn [wbuf new_writer app wall wchunks].
+  pose proof (put_pieces (x :: d)) as Hp.
+  destruct (drain (length (x :: d)) cs (x :: d)) as [ps1 r].
+  unfold w_store. cbn [fst]. unfold w_finish, w_store. cbn [wbuf wchunks wall chunks arts writers next_id clock seen fst snd app].
+  rewrite <- Hp. rewrite storeN_app, map_app, rev_app_distr, <- app_assoc.
+  rewrite adel_absent by exact Hfresh.
+  destruct r; reflexivity.
+Qed.
+
+Theorem step_inv s o : Inv s -> Inv (fst (stepm s o)).
+Proof.
+  intros I. destruct o as [d| |w d|w|id|id|id|ks| |id| |secs| ].
+  - destruct d as [|x d]; [exact I|]. rewrite put_state by (apply (i_fresh_w _ I); lia).
+    apply inv_put. exact I.
+  - cbn [step fst]. apply inv_open. exact I.
+  - cbn [step]. destruct (aget (writers s) w) as [wr|] eqn:Ew; [|exact I].
+    unfold w_write. destruct (drain _ cs (wbuf wr ++ d)) as [ps r]. unfold w_store. cbn [fst chunks arts writers next_id clock seen].
+    apply inv_write; assumption.
+  - cbn [step]. destruct (aget (writers s) w) as [wr|] eqn:Ew; [|exact I].
+    cbn [fst]. unfold w_finish, w_store. cbn [chunks arts writers next_id clock seen wchunks wall].
+    apply inv_finish; assumption.
+  - cbn [step]. destruct (aget (arts s) id) as [a|] eqn:Ea; [|exact I]. cbn [fst]. apply inv_delete; assumption.
+  - exact I.
+  - exact I.
+  - cbn [step]. pose proof (inv_gc s ks I) as H. destruct (gc_run collectable mincr min_age s ks) as [cks [del freed]]. exact H.
+  - cbn [step]. pose proof (inv_full_gc s I) as H. destruct (full_gc_run fgc_w s) as [cks [del freed]]. exact H.
+  - exact I.
+  - cbn [step]. pose proof (inv_repair s I) as H. destruct (repair_run rep_w s) as [cks [fixed orph]]. exact H.
+  - cbn [step fst]. destruct I. constructor; cbn [chunks arts writers next_id clock seen]; assumption.
+  - exact I.
+Qed.
+
+Theorem run_inv ops : forall s, Inv s -> Inv (runm s ops).
+Proof. induction ops as [|o r IH]; intros s I; cbn [run]; [exact I|]. apply IH. apply step_inv. exact I. Qed.
+
+(* ============================================================ E. refinement of the byte-string specification *)
+
+Definition pieces_ok (cks : list (N * chunk)) (ps : list (list N)) : Prop :=
+  Forall (fun p => exists c, aget cks (hash p) = Some c /\ cdata c = p) ps.
+
+(* two different chunk contents of the run with the same digest *)
+Definition CollIn (U : list (list N)) : Prop :=
+  exists x y, In x U /\ In y U /\ x <> y /\ hash x = hash y.
+
+Definition ArtOK (cks : list (N * chunk)) (od : option (list N)) (oa : option art) : Prop :=
+  match od with
+  | Some d => exists ar, oa = Some ar /\ achunks ar = map hash (split cs d) /\ asum ar = hash d /\
+                         asize ar = N.of_nat (length d) /\ pieces_ok cks (split cs d)
+  | None => oa = None
+  end.
+Definition WrOK (cks : list (N * chunk)) (od : option (list N)) (ow : option writer) : Prop :=
+  match od with
+  | Some d => exists w ps, ow = Some w /\ wall w = d /\ wchunks w = map hash ps /\ concat ps ++ wbuf w = d /\
+                           Forall (fun p => length p = cs) ps /\ (length (wbuf w) < cs)%nat /\ pieces_ok cks ps
+  | None => ow = None
+  end.
+Record Ref (a : spec) (s : st) : Prop := {
+  r_next : snext a = next_id s;
+  r_arts : forall id, ArtOK (chunks s) (aget (sarts a) id) (aget (arts s) id);
+  r_wrs : forall id, WrOK (chunks s) (aget (swr a) id) (aget (writers s) id)
+}.
+
+Lemma Ref_init : Ref sinit init.
+Proof. constructor; cbn; intros; reflexivity. Qed.
+
+Lemma list_N_eq_dec (x y : list N) : {x = y} + {x <> y}.
+Proof. apply list_eq_dec. apply N.eq_dec. Qed.
+
+Lemma forall_or {A} (C : Prop) (P : A -> Prop) l : (forall x, In x l -> C \/ P x) -> C \/ Forall P l.
+Proof.
+  induction l as [|x r IH]; intros H; [right; constructor|].
+  destruct (H x (or_introl eq_refl)) as [Hc|Hx]; [left; exact Hc|].
+  destruct IH as [Hc|Hr]; [intros y Hy; apply H; right; exact Hy|left; exact Hc|right; constructor; assumption].
+Qed.
+
+(* after storing the pieces ps, each of them reads back as itself -- or the run has exhibited a collision *)
+Lemma store_pieces s ps :
+  (forall k c, aget (chunks s) k = Some c -> hash (cdata c) = k /\ In (cdata c) (seen s)) ->
+  CollIn (rev ps ++ seen s) \/ pieces_ok (storeN (clock s) (chunks s) ps) ps.
+Proof.
+  intros Hh. apply forall_or. intros p Hp.
+  rewrite (store_chunks_get hash rdec rinc Hdec Hinc).
+  destruct (aget (chunks s) (hash p)) as [c|] eqn:E.
+  - destruct (Hh _ _ E) as [H1 H2]. destruct (list_N_eq_dec (cdata c) p) as [Heq|Hne].
+    + right. eexists. split; [reflexivity|exact Heq].
+    + left. exists (cdata c), p. repeat split; try assumption.
+      * apply in_or_app. right. exact H2.
+      * apply in_or_app. left. rewrite <- in_rev. exact Hp.
+  - destruct (find (fun p0 => N.eqb (hash p0) (hash p)) ps) as [p'|] eqn:Ef.
+    + apply find_hash_some in Ef. destruct Ef as [H1 H2]. destruct (list_N_eq_dec p' p) as [Heq|Hne].
+      * right. eexists. split; [reflexivity|exact Heq].
+      * left. exists p', p. repeat split; try assumption; apply in_or_app; left; rewrite <- in_rev; assumption.
+    + exfalso. apply find_hash_none in Ef. assert (H : 0 < count (hash p) (map hash ps)).
+      { apply count_in. apply in_map. exact Hp. } lia.
+Qed.
+
+Lemma read_pieces cks ps : pieces_ok cks ps -> read_chunks cks (map hash ps) = Some (concat ps).
+Proof.
+  induction 1 as [|p r [c [Hc Hd]] _ IH]; cbn [map read_chunks concat]; [reflexivity|].
+  rewrite Hc, IH, Hd. reflexivity.
+Qed.
+
+(* live chunks keep their bytes *)
+Definition Keeps (s : st) (cks' : list (N * chunk)) : Prop :=
+  forall k c, aget (chunks s) k = Some c -> 0 < occ s k -> exists c', aget cks' k = Some c' /\ cdata c' = cdata c.
+
+Lemma pieces_keep s cks' ps : Keeps s cks' -> pieces_ok (chunks s) ps ->
+  (forall p, In p ps -> 0 < occ s (hash p)) -> pieces_ok cks' ps.
+Proof.
+  intros Hk Hp Hu. unfold pieces_ok in *. rewrite Forall_forall in *. intros p Hin.
+  destruct (Hp p Hin) as [c [Hc Hd]]. destruct (Hk _ _ Hc (Hu p Hin)) as [c' [Hc' Hd']].
+  exists c'. split; [exact Hc'|congruence].
+Qed.
+
+Lemma art_used s id ar k : aget (arts s) id = Some ar -> In k (achunks ar) -> 0 < occ s k.
+Proof.
+  intros Ha Hin. unfold occ, occ2. pose proof (cnt_in achunks (arts s) id ar k Ha).
+  apply count_in in Hin. lia.
+Qed.
+Lemma wr_used s id w k : aget (writers s) id = Some w -> In k (wchunks w) -> 0 < occ s k.
+Proof.
+  intros Ha Hin. unfold occ, occ2. pose proof (cnt_in wchunks (writers s) id w k Ha).
+  apply count_in in Hin. lia.
+Qed.
+
+Lemma artok_keep s cks' od oa : Keeps s cks' -> (forall ar, oa = Some ar -> exists id, aget (arts s) id = Some ar) ->
+  ArtOK (chunks s) od oa -> ArtOK cks' od oa.
+Proof.
+  intros Hk Hex. unfold ArtOK. destruct od as [d|]; [|auto].
+  intros [ar (H1 & H2 & H3 & H4 & H5)]. exists ar. repeat split; try assumption.
+  destruct (Hex ar H1) as [id Hid].
+  eapply pieces_keep; [exact Hk|exact H5|]. intros p Hp. eapply art_used; [exact Hid|].
+  rewrite H2. apply in_map. exact Hp.
+Qed.
+Lemma wrok_keep s cks' od ow : Keeps s cks' -> (forall w, ow = Some w -> exists id, aget (writers s) id = Some w) ->
+  WrOK (chunks s) od ow -> WrOK cks' od ow.
+Proof.
+  intros Hk Hex. unfold WrOK. destruct od as [d|]; [|auto].
+  intros [w [ps (H1 & H2 & H3 & H4 & H5 & H6 & H7)]]. exists w, ps. repeat split; try assumption.
+  destruct (Hex w H1) as [id Hid].
+  eapply pieces_keep; [exact Hk|exact H7|]. intros p Hp. eapply wr_used; [exact Hid|].
+  rewrite H3. apply in_map. exact Hp.
+Qed.
+
+(* frame rule: holders the step did not touch stay correct; the touched ones are argued directly *)
+Lemma ref_frame a s a' s' :
+  Ref a s -> Keeps s (chunks s') -> snext a' = next_id s' ->
+  (forall id, (aget (sarts a') id = aget (sarts a) id /\ aget (arts s') id = aget (arts s) id)
+              \/ ArtOK (chunks s') (aget (sarts a') id) (aget (arts s') id)) ->
+  (forall id, (aget (swr a') id = aget (swr a) id /\ aget (writers s') id = aget (writers s) id)
+              \/ WrOK (chunks s') (aget (swr a') id) (aget (writers s') id)) ->
+  Ref a' s'.
+Proof.
+  intros R Hk Hn Ha Hw. destruct R. constructor; [exact Hn| |].
+  - intros id. destruct (Ha id) as [[E1 E2]|H]; [|exact H]. rewrite E1, E2.
+    eapply artok_keep; [exact Hk| |apply r_arts0]. intros ar Har. exists id. exact Har.
+  - intros id. destruct (Hw id) as [[E1 E2]|H]; [|exact H]. rewrite E1, E2.
+    eapply wrok_keep; [exact Hk| |apply r_wrs0]. intros w Hw'. exists id. exact Hw'.
+Qed.
+
+Lemma keeps_store s ps : Keeps s (storeN (clock s) (chunks s) ps).
+Proof.
+  intros k c Hc _. rewrite (store_chunks_get hash rdec rinc Hdec Hinc), Hc. eexists. split; reflexivity.
+Qed.
+
+Lemma pieces_ok_app cks p1 p2 : pieces_ok cks p1 -> pieces_ok cks p2 -> pieces_ok cks (p1 ++ p2).
+Proof. unfold pieces_ok. intros. apply Forall_app. split; assumption. Qed.
+
+Lemma pieces_store_old s ps ps0 : pieces_ok (chunks s) ps0 -> pieces_ok (storeN (clock s) (chunks s) ps) ps0.
+Proof.
+  unfold pieces_ok. rewrite !Forall_forall. intros H p Hp. destruct (H p Hp) as [c [Hc Hd]].
+  rewrite (store_chunks_get hash rdec rinc Hdec Hinc), Hc. eexists. split; [reflexivity|exact Hd].
+Qed.
+
+Lemma seen_mono s o x : In x (seen s) -> In x (seen (fst (stepm s o))).
+Proof.
+  intros H. destruct o as [d| |w d|w|id|id|id|ks| |id| |secs| ]; cbn [step]; try exact H.
+  - destruct d as [|y d]; [exact H|]. unfold w_write. destruct (drain _ cs _) as [ps r].
+    unfold w_store, w_finish, w_store. cbn [fst seen wbuf]. apply in_or_app. right. apply in_or_app. right. exact H.
+  - destruct (aget (writers s) w); [|exact H]. unfold w_write. destruct (drain _ cs _) as [ps r].
+    unfold w_store. cbn [fst seen]. apply in_or_app. right. exact H.
+  - destruct (aget (writers s) w); [|exact H]. unfold w_finish, w_store. cbn [fst seen]. apply in_or_app. right. exact H.
+  - destruct (aget (arts s) id); exact H.
+Qed.
+
+Lemma collin_mono U U' : (forall x, In x U -> In x U') -> CollIn U -> CollIn U'.
+Proof. intros H (x & y & Hx & Hy & Hne & He). exists x, y. repeat split; auto. Qed.
+
+Lemma seen_mono_run ops : forall s, CollIn (seen s) -> CollIn (seen (runm s ops)).
+Proof.
+  induction ops as [|o r IH]; intros s H; cbn [run]; [exact H|]. apply IH.
+  eapply collin_mono; [|exact H]. intros x. apply seen_mono.
+Qed.
+
+(* one step: the specification is refined, or the run has exhibited a collision *)
+Theorem step_ref a s o : Inv s -> Ref a s ->
+  CollIn (seen (fst (stepm s o))) \/ Ref (sstep a o) (fst (stepm s o)).
+Proof.
+  intros I R. pose proof R as R'. destruct R' as [Rn Ra Rw].
+  destruct o as [d| |w d|w|id|id|id|ks| |id| |secs| ]; cbn [sstep].
+  - (* put *)
+    destruct d as [|x d]; [right; exact R|].
+    rewrite put_state by (apply (i_fresh_w _ I); lia).
+    destruct (store_pieces s (split cs (x :: d)) (i_hash _ I)) as [Hc|Hp]; [left; exact Hc|right].
+    eapply ref_frame; [exact R|apply keeps_store|cbn; rewrite Rn; reflexivity| |].
+    + intros id. cbn [sarts arts]. rewrite !aget_aset. rewrite Rn.
+      destruct (N.eqb (next_id s) id); [right|left; split; reflexivity].
+      cbn [ArtOK chunks]. eexists. repeat split; try reflexivity. exact Hp.
+    + intros id. left. split; reflexivity.
+  - (* open *)
+    right. cbn [step fst].
+    eapply ref_frame; [exact R| |cbn; rewrite Rn; reflexivity| |].
+    + intros k c Hc _. cbn [chunks]. eexists. split; [exact Hc|reflexivity].
+    + intros id. left. split; reflexivity.
+    + intros id. cbn [swr writers]. rewrite !aget_aset, Rn.
+      destruct (N.eqb (next_id s) id); [right|left; split; reflexivity].
+      cbn [WrOK]. exists new_writer, []. cbn. repeat split; try reflexivity; [constructor|exact Hcs|constructor].
+  - (* write *)
+    cbn [step]. specialize (Rw w) as Rww. unfold WrOK in Rww.
+    destruct (aget (swr a) w) as [x|] eqn:Es.
+    + destruct Rww as [wr [ps0 (Hw & Hall & Hch & Hcat & Hlen & Hbuf & Hpo)]]. rewrite Hw.
+      unfold w_write. pose proof (drain_spec cs (length (wbuf wr ++ d)) (wbuf wr ++ d) Hcs (le_n _)) as Hd.
+      destruct (drain _ cs (wbuf wr ++ d)) as [ps r]. destruct Hd as (D1 & D2 & D3).
+      unfold w_store. cbn [fst chunks arts writers next_id clock seen].
+      destruct (store_pieces s ps (i_hash _ I)) as [Hc|Hp]; [left; exact Hc|right].
+      eapply ref_frame; [exact R|apply keeps_store|exact Rn| |].
+      * intros id. left. split; reflexivity.
+      * intros id. cbn [swr writers]. rewrite !aget_aset.
+        destruct (N.eqb w id); [right|left; split; reflexivity].
+        cbn [WrOK chunks]. eexists. exists (ps0 ++ ps). repeat split; try reflexivity.
+        -- cbn [wall]. rewrite Hall. reflexivity.
+        -- cbn [wchunks]. rewrite Hch, map_app. reflexivity.
+        -- cbn [wbuf]. rewrite concat_app, <- app_assoc, D1, app_assoc, Hcat. reflexivity.
+        -- apply Forall_app. split; assumption.
+        -- exact D3.
+        -- apply pieces_ok_app; [apply pieces_store_old; exact Hpo|exact Hp].
+    + rewrite Rww. right. exact R.
+  - (* finish *)
+    cbn [step]. specialize (Rw w) as Rww. unfold WrOK in Rww.
+    destruct (aget (swr a) w) as [x|] eqn:Es.
+    + destruct Rww as [wr [ps0 (Hw & Hall & Hch & Hcat & Hlen & Hbuf & Hpo)]]. rewrite Hw.
+      cbn [fst]. unfold w_finish, w_store. cbn [chunks arts writers next_id clock seen wchunks wall].
+      set (ps := match wbuf wr with [] => [] | b => [b] end).
+      destruct (store_pieces s ps (i_hash _ I)) as [Hc|Hp]; [left; exact Hc|right].
+      assert (Hsplit : split cs x = ps0 ++ ps).
+      { rewrite <- Hcat. rewrite split_pieces by assumption. unfold ps. destruct (wbuf wr); reflexivity. }
+      eapply ref_frame; [exact R|apply keeps_store|exact Rn| |].
+      * intros id. cbn [sarts arts]. rewrite !aget_aset.
+        destruct (N.eqb w id); [right|left; split; reflexivity].
+        cbn [ArtOK chunks]. eexists. repeat split; try reflexivity.
+        -- cbn [achunks]. rewrite Hsplit, Hch, map_app. reflexivity.
+        -- cbn [asum]. rewrite Hall. reflexivity.
+        -- cbn [asize]. rewrite Hall. reflexivity.
+        -- rewrite Hsplit. apply pieces_ok_app; [apply pieces_store_old; exact Hpo|exact Hp].
+      * intros id. cbn [swr writers]. rewrite !aget_adel.
+        destruct (N.eqb w id); [right; reflexivity|left; split; reflexivity].
+    + rewrite Rww. right. exact R.
+  - (* delete *)
+    right. cbn [step]. specialize (Ra id) as Raa. unfold ArtOK in Raa.
+    assert (Hk : forall ks, Keeps s (fold_left (dec_ref rdec) ks (chunks s))).
+    { intros ks k c Hc _. rewrite (dec_fold_get hash rdec rinc Hdec Hinc), Hc. eexists. split; reflexivity. }
+    destruct (aget (arts s) id) as [ar|] eqn:Ea.
+    + cbn [fst]. eapply ref_frame; [exact R|apply Hk|exact Rn| |].
+      * intros id'. cbn [sarts arts]. rewrite !aget_adel.
+        destruct (N.eqb id id'); [right; reflexivity|left; split; reflexivity].
+      * intros id'. left. split; reflexivity.
+    + cbn [fst]. eapply ref_frame; [exact R| |exact Rn| |].
+      * intros k c Hc _. eexists. split; [exact Hc|reflexivity].
+      * intros id'. cbn [sarts]. rewrite aget_adel. destruct (N.eqb_spec id id') as [<-|]; [right|left; split; reflexivity].
+        cbn [ArtOK]. exact Ea.
+      * intros id'. left. split; reflexivity.
+  - right. exact R.
+  - right. exact R.
+  - (* gc *)
+    right. cbn [step]. pose proof (i_nd_c _ I) as Hnd. pose proof (i_refs _ I) as Hrf.
+    assert (Hk : Keeps s (fst (gc_run collectable mincr min_age s ks))).
+    { intros k c Hc Hpos. unfold gc_run. cbn [fst]. rewrite aget_filter by assumption. rewrite Hc.
+      destruct (gc_hit collectable mincr min_age (clock s) ks (k, c)) eqn:Eh; cbn [negb]; [|eexists; split; reflexivity].
+      exfalso. unfold gc_hit in Eh. apply andb_true_iff in Eh. destruct Eh as [_ Eh]. cbn [fst snd] in Eh.
+      apply Hcoll in Eh. rewrite (Hrf k c Hc) in Eh. lia. }
+    destruct (gc_run collectable mincr min_age s ks) as [cks [del freed]]. cbn [fst] in *.
+    eapply ref_frame; [exact R|exact Hk|exact Rn| |]; intros id'; left; split; reflexivity.
+  - (* full gc *)
+    right. cbn [step]. pose proof (i_nd_c _ I) as Hnd.
+    assert (Hk : Keeps s (fst (full_gc_run fgc_w s))).
+    { intros k c Hc Hpos. unfold full_gc_run. cbn [fst]. rewrite aget_filter by assumption. rewrite Hc. cbn [fst].
+      destruct (mem k (fgc_refs fgc_w s)) eqn:Em; [eexists; split; reflexivity|].
+      exfalso. apply mem_false_count in Em. unfold fgc_refs in Em. rewrite Hfgc, occ_refs_app in Em. lia. }
+    destruct (full_gc_run fgc_w s) as [cks [del freed]]. cbn [fst] in *.
+    eapply ref_frame; [exact R|exact Hk|exact Rn| |]; intros id'; left; split; reflexivity.
+  - right. exact R.
+  - (* repair *)
+    right. cbn [step]. pose proof (i_nd_c _ I) as Hnd.
+    assert (Hk : Keeps s (fst (repair_run rep_w s))).
+    { intros k c Hc Hpos. unfold repair_run. cbn [fst]. rewrite repair_get by assumption. rewrite Hc.
+      unfold rep_refs. rewrite Hrep, occ_refs_app.
+      destruct (N.eqb_spec (occ s k) 0); [lia|]. eexists. split; reflexivity. }
+    destruct (repair_run rep_w s) as [cks [fixed orph]]. cbn [fst] in *.
+    eapply ref_frame; [exact R|exact Hk|exact Rn| |]; intros id'; left; split; reflexivity.
+  - (* advance *)
+    right. cbn [step fst]. destruct R. constructor; assumption.
+  - right. exact R.
+Qed.
+
+Theorem refine_run ops : forall a s, Inv s -> Ref a s ->
+  CollIn (seen (runm s ops)) \/ Ref (srun a ops) (runm s ops).
+Proof.
+  induction ops as [|o r IH]; intros a s I R; cbn [run srun]; [right; exact R|].
+  destruct (step_ref a s o I R) as [Hc|R']; [left; apply seen_mono_run; exact Hc|].
+  apply IH; [apply step_inv; exact I|exact R'].
+Qed.
+
+Theorem get_refines a s : Ref a s -> forall id, get s id = sget a id.
+Proof.
+  intros R id. destruct R as [_ Ra _]. specialize (Ra id). unfold ArtOK in Ra. unfold get, sget.
+  destruct (aget (sarts a) id) as [d|].
+  - destruct Ra as [ar (H1 & H2 & _ & _ & H5)]. rewrite H1, H2, (read_pieces _ _ H5), split_concat by exact Hcs. reflexivity.
+  - rewrite Ra. reflexivity.
+Qed.
+
+Theorem verify_refines a s : Ref a s -> forall id,
+  verify hash s id = match aget (sarts a) id with Some _ => RBool true | None => RErr E_NOTFOUND end.
+Proof.
+  intros R id. destruct R as [_ Ra _]. specialize (Ra id). unfold ArtOK in Ra. unfold verify.
+  destruct (aget (sarts a) id) as [d|].
+  - destruct Ra as [ar (H1 & H2 & H3 & _ & H5)]. rewrite H1, H2, (read_pieces _ _ H5), split_concat by exact Hcs.
+    rewrite H3, N.eqb_refl. reflexivity.
+  - rewrite Ra. reflexivity.
+Qed.
+
+(* ---- reading depends only on the bytes of the listed chunks ---- *)
+Lemma read_chunks_ext cks cks' ks :
+  (forall k, In k ks -> option_map cdata (aget cks' k) = option_map cdata (aget cks k)) ->
+  read_chunks cks' ks = read_chunks cks ks.
+Proof.
+  induction ks as [|k r IH]; intros H; cbn [read_chunks]; [reflexivity|].
+  pose proof (H k (or_introl eq_refl)) as Hk. rewrite IH by (intros k' Hk'; apply H; right; exact Hk').
+  destruct (aget cks' k) as [c'|], (aget cks k) as [c|]; cbn in Hk; try discriminate; [|reflexivity].
+  injection Hk as ->. reflexivity.
+Qed.
+
+Lemma read_chunks_missing cks ks k : In k ks -> aget cks k = None -> read_chunks cks ks = None.
+Proof.
+  induction ks as [|x r IH]; cbn [In read_chunks]; [tauto|]. intros [->|Hin] Hn.
+  - rewrite Hn. reflexivity.
+  - destruct (aget cks x); [|reflexivity]. rewrite IH by assumption. reflexivity.
+Qed.
+
+(* deleting one artifact leaves every other artifact's bytes: in ANY state *)
+Theorem delete_leaves_others s id id' : id <> id' ->
+  get (fst (stepm s (ODelete id))) id' = get s id'.
+Proof.
+  intros Hne. cbn [step]. destruct (aget (arts s) id) as [a|]; [|reflexivity].
+  cbn [fst]. unfold get. cbn [arts chunks]. rewrite aget_adel. destruct (N.eqb_spec id id'); [contradiction|].
+  destruct (aget (arts s) id') as [a'|]; [|reflexivity].
+  rewrite (read_chunks_ext (chunks s)); [reflexivity|]. intros k _.
+  rewrite (dec_fold_get hash rdec rinc Hdec Hinc). destruct (aget (chunks s) k); reflexivity.
+Qed.
+
+(* gc / full_gc / repair: every chunk listed by an existing artifact (or held by an unfinished
+   writer) is still there with the same bytes, in every reachable state *)
+Definition is_collect (o : op) : bool :=
+  match o with OGc _ | OFullGc | ORepair => true | _ => false end.
+
+Lemma keeps_collect s o : Inv s -> is_collect o = true -> Keeps s (chunks (fst (stepm s o))).
+Proof.
+  intros I Ho. pose proof (i_nd_c _ I) as Hnd. pose proof (i_refs _ I) as Hrf.
+  destruct o as [d| |w d|w|id|id|id|ks| |id| |secs| ]; try discriminate; cbn [step].
+  - assert (Hk : Keeps s (fst (gc_run collectable mincr min_age s ks))).
+    { intros k c Hc Hpos. unfold gc_run. cbn [fst]. rewrite aget_filter by assumption. rewrite Hc.
+      destruct (gc_hit collectable mincr min_age (clock s) ks (k, c)) eqn:Eh; cbn [negb]; [|eexists; split; reflexivity].
+      exfalso. unfold gc_hit in Eh. apply andb_true_iff in Eh. destruct Eh as [_ Eh]. cbn [fst snd] in Eh.
+      apply Hcoll in Eh. rewrite (Hrf k c Hc) in Eh. lia. }
+    destruct (gc_run collectable mincr min_age s ks) as [cks [del freed]]. exact Hk.
+  - assert (Hk : Keeps s (fst (full_gc_run fgc_w s))).
+    { intros k c Hc Hpos. unfold full_gc_run. cbn [fst]. rewrite aget_filter by assumption. rewrite Hc. cbn [fst].
+      destruct (mem k (fgc_refs fgc_w s)) eqn:Em; [eexists; split; reflexivity|].
+      exfalso. apply mem_false_count in Em. unfold fgc_refs in Em. rewrite Hfgc, occ_refs_app in Em. lia. }
+    destruct (full_gc_run fgc_w s) as [cks [del freed]]. exact Hk.
+  - assert (Hk : Keeps s (fst (repair_run rep_w s))).
+    { intros k c Hc Hpos. unfold repair_run. cbn [fst]. rewrite repair_get by assumption. rewrite Hc.
+      unfold rep_refs. rewrite Hrep, occ_refs_app.
+      destruct (N.eqb_spec (occ s k) 0); [lia|]. eexists. split; reflexivity. }
+    destruct (repair_run rep_w s) as [cks [fixed orph]]. exact Hk.
+Qed.
+
+Theorem collect_keeps_referenced s o id ar k : Inv s -> is_collect o = true ->
+  aget (arts s) id = Some ar -> In k (achunks ar) ->
+  exists c c', aget (chunks s) k = Some c /\ aget (chunks (fst (stepm s o))) k = Some c' /\ cdata c' = cdata c.
+Proof.
+  intros I Ho Ha Hin. pose proof (art_used s id ar k Ha Hin) as Hpos.
+  destruct (aget (chunks s) k) as [c|] eqn:Ec; [|exfalso; apply (i_live _ I k Hpos); exact Ec].
+  destruct (keeps_collect s o I Ho k c Ec Hpos) as [c' [H1 H2]]. exists c, c'. auto.
+Qed.
+
+Lemma collect_arts s o : is_collect o = true -> arts (fst (stepm s o)) = arts s.
+Proof.
+  destruct o; try discriminate; intros _; cbn [step].
+  - destruct (gc_run _ _ _ s examined) as [cks [a b]]. reflexivity.
+  - destruct (full_gc_run _ s) as [cks [a b]]. reflexivity.
+  - destruct (repair_run _ s) as [cks [a b]]. reflexivity.
+Qed.
+
+Theorem collect_preserves_reads s o id : Inv s -> is_collect o = true ->
+  get (fst (stepm s o)) id = get s id.
+Proof.
+  intros I Ho. unfold get. rewrite collect_arts by exact Ho.
+  destruct (aget (arts s) id) as [ar|] eqn:Ea; [|reflexivity].
+  rewrite (read_chunks_ext (chunks s)); [reflexivity|]. intros k Hin.
+  destruct (collect_keeps_referenced s o id ar k I Ho Ea Hin) as [c [c' (H1 & H2 & H3)]].
+  rewrite H1, H2. cbn. rewrite H3. reflexivity.
+Qed.
+
+(* no artifact, no unfinished writer: a full collection leaves no chunk (any state) *)
+Theorem full_gc_empties s : arts s = [] -> writers s = [] -> chunks (fst (stepm s OFullGc)) = [].
+Proof.
+  intros Ha Hw. cbn [step]. unfold full_gc_run, fgc_refs, art_refs, wr_refs. rewrite Ha, Hw. cbn [flat_map app].
+  destruct fgc_w; cbn [app fst chunks]; induction (chunks s) as [|p r IH]; cbn; auto.
+Qed.
+
+(* verify: a missing chunk is reported (any state) *)
+Theorem verify_reports_missing s id ar k : aget (arts s) id = Some ar -> In k (achunks ar) ->
+  verify hash (remove_chunk s k) id = RErr E_CHUNKMISSING.
+Proof.
+  intros Ha Hin. unfold verify, remove_chunk. cbn [arts chunks]. rewrite Ha.
+  rewrite (read_chunks_missing _ _ k Hin); [reflexivity|]. rewrite aget_adel, N.eqb_refl. reflexivity.
+Qed.
+
+(* verify: after ANY change to the stored chunks (cks' arbitrary), verification succeeds only if the
+   bytes that now read back are the bytes written, or they collide with them under the hash *)
+Theorem verify_detects_alteration a s id d cks' : Ref a s -> aget (sarts a) id = Some d ->
+  let s' := St cks' (arts s) (writers s) (next_id s) (clock s) (seen s) in
+  verify hash s' id = RBool true ->
+  get s' id = RBytes d \/ exists rb, get s' id = RBytes rb /\ rb <> d /\ hash rb = hash d.
+Proof.
+  intros R Hd s' Hv. destruct R as [_ Ra _]. specialize (Ra id). unfold ArtOK in Ra. rewrite Hd in Ra.
+  destruct Ra as [ar (H1 & _ & H3 & _ & _)]. unfold verify, get in *. cbn [arts chunks s'] in *. rewrite H1 in *.
+  destruct (read_chunks cks' (achunks ar)) as [rb|]; [|discriminate].
+  injection Hv as Hv. apply N.eqb_eq in Hv. rewrite H3 in Hv.
+  destruct (list_N_eq_dec rb d) as [->|Hne]; [left; reflexivity|right]. exists rb. auto.
+Qed.
+
+End InvProofs.
+
+(* ============================================================ F. the specification side *)
+Lemma srun_app a o1 : forall o2, srun a (o1 ++ o2) = srun (srun a o1) o2.
+Proof. revert a. induction o1 as [|o r IH]; intros a o2; cbn [app srun]; [reflexivity|apply IH]. Qed.
+
+Lemma run_app hash collectable mincr rdec rinc fgc_w rep_w cs min_age s o1 : forall o2,
+  run hash collectable mincr rdec rinc fgc_w rep_w cs min_age s (o1 ++ o2) =
+  run hash collectable mincr rdec rinc fgc_w rep_w cs min_age (run hash collectable mincr rdec rinc fgc_w rep_w cs min_age s o1) o2.
+Proof. revert s. induction o1 as [|o r IH]; intros s o2; cbn [app run]; [reflexivity|apply IH]. Qed.
+
+Lemma spec_writes n : forall ws a x, aget (swr a) n = Some x ->
+  sget (srun a (map (OWrite n) ws ++ [OFinish n])) n = RBytes (x ++ concat ws).
+Proof.
+  induction ws as [|w r IH]; intros a x Hx; cbn [map app srun sstep concat].
+  - rewrite Hx. unfold sget. cbn [sarts]. rewrite aget_aset, N.eqb_refl, app_nil_r. reflexivity.
+  - rewrite Hx. rewrite (IH _ (x ++ w)); [rewrite app_assoc; reflexivity|].
+    cbn [swr]. rewrite aget_aset, N.eqb_refl. reflexivity.
+Qed.
+
+(* a streamed artifact, under ANY partition of its bytes into writes (empty writes included),
+   is specified to read back as the concatenation *)
+Lemma spec_stream a ws :
+  sget (srun a (OOpen :: map (OWrite (snext a)) ws ++ [OFinish (snext a)])) (snext a) = RBytes (concat ws).
+Proof.
+  cbn [srun sstep]. rewrite (spec_writes (snext a) ws _ []); [reflexivity|].
+  cbn [swr]. rewrite aget_aset, N.eqb_refl. reflexivity.
+Qed.
+
+Lemma spec_put a x d : sget (srun a [OPut (x :: d)]) (snext a) = RBytes (x :: d).
+Proof. cbn [srun sstep]. unfold sget. cbn [sarts]. rewrite aget_aset, N.eqb_refl. reflexivity. Qed.
